@@ -143,15 +143,14 @@ Section PluginInd.
 End PluginInd.
 
 Definition SRel (P : list str) (a : scratch) (e : expect) : Prop :=
-  exists h, sc_headers a = Some h /\ Rel P h (e_headers e).
+  (exists h, sc_headers a = Some h /\ Rel P h (e_headers e))
+  /\ sc_params a = e_params e /\ sc_cookies a = e_cookies e.
 
 Definition step_ok (P : list str) (p : plugin) : Prop :=
-  forall a e, no_nonheader_key p = true -> incl (plugin_names p) P -> SRel P a e ->
+  forall a e, incl (plugin_names p) P -> SRel P a e ->
   match auth_step p a, spec_plugin p e with
-  | (p1, Ok a'), (p2, Ok e') =>
-      p1 = p2 /\ SRel P a' e' /\ e_params e' = e_params e /\ e_cookies e' = e_cookies e
-      /\ no_nonheader_key p1 = true /\ plugin_names p1 = plugin_names p
-  | (p1, Err), (p2, Err) => p1 = p2 /\ no_nonheader_key p1 = true /\ plugin_names p1 = plugin_names p
+  | (p1, Ok a'), (p2, Ok e') => p1 = p2 /\ SRel P a' e' /\ plugin_names p1 = plugin_names p
+  | (p1, Err), (p2, Err) => p1 = p2 /\ plugin_names p1 = plugin_names p
   | _, _ => False
   end.
 
@@ -160,30 +159,38 @@ Proof. intros P H. apply H. simpl. auto. Qed.
 
 Lemma step_ok_all : forall P, case_consistent P = true -> forall p, step_ok P p.
 Proof.
-  intros P HP. induction p using plugin_ind'; unfold step_ok; intros a e Hg Hn (h0 & Hh & HR).
+  intros P HP. induction p using plugin_ind'; unfold step_ok; intros a e Hn ((h0 & Hh & HR) & Hpa & Hco).
   - (* Bearer *)
     cbn [auth_step spec_plugin]. rewrite Hh. cbn [get_or_empty].
-    repeat split; auto. exists (aset h0 s_Authorization (s_Bearer_sp ++ t)). split; [reflexivity|].
+    split; [reflexivity|]. split; [|reflexivity]. split; [|split; assumption].
+    exists (aset h0 s_Authorization (s_Bearer_sp ++ t)). split; [reflexivity|].
     cbn [e_headers]. apply Rel_aset; auto. apply in_Auth. exact Hn.
   - (* HeadersP *)
     cbn [auth_step spec_plugin]. rewrite Hh. cbn [get_or_empty].
-    repeat split; auto. exists (aupdate h0 h). split; [reflexivity|].
+    split; [reflexivity|]. split; [|reflexivity]. split; [|split; assumption].
+    exists (aupdate h0 h). split; [reflexivity|].
     cbn [e_headers]. apply Rel_aupdate; auto.
   - (* ApiKey *)
-    cbn [auth_step spec_plugin]. cbn [no_nonheader_key] in Hg. cbn [plugin_names] in Hn.
+    cbn [auth_step spec_plugin]. cbn [plugin_names] in Hn.
     destruct (str_eqb l s_header) eqn:E1.
     + rewrite Hh. cbn [get_or_empty].
-      split; [reflexivity|]. split.
-      { exists (aset h0 n k). split; [reflexivity|]. cbn [e_headers]. apply Rel_aset; auto.
-        apply Hn. simpl. auto. }
-      repeat split; auto.
-    + destruct (str_eqb l s_query) eqn:E2; [simpl in Hg; discriminate|].
-      destruct (str_eqb l s_cookie) eqn:E3; [simpl in Hg; discriminate|].
-      repeat split; auto.
-      all: cbn [no_nonheader_key plugin_names]; rewrite ?E1, ?E2, ?E3; reflexivity.
+      split; [reflexivity|]. split; [|cbn [plugin_names]; rewrite E1; reflexivity].
+      split; [|split; assumption].
+      exists (aset h0 n k). split; [reflexivity|]. cbn [e_headers]. apply Rel_aset; auto.
+      apply Hn. simpl. auto.
+    + destruct (str_eqb l s_query) eqn:E2.
+      * split; [reflexivity|]. split; [|cbn [plugin_names]; rewrite E1; reflexivity].
+        split; [exists h0; split; assumption|]. cbn [sc_params e_params sc_cookies e_cookies].
+        rewrite Hpa. split; [reflexivity | assumption].
+      * destruct (str_eqb l s_cookie) eqn:E3.
+        -- split; [reflexivity|]. split; [|cbn [plugin_names]; rewrite E1; reflexivity].
+           split; [exists h0; split; assumption|]. cbn [sc_params e_params sc_cookies e_cookies].
+           rewrite Hco. split; [assumption | reflexivity].
+        -- split; [reflexivity|]. cbn [plugin_names]. rewrite E1. reflexivity.
   - (* OAuth2 *)
     cbn [auth_step spec_plugin]. rewrite Hh. cbn [get_or_empty].
-    repeat split; auto. eexists. split; [reflexivity|].
+    split; [reflexivity|]. split; [|reflexivity]. split; [|split; assumption].
+    eexists. split; [reflexivity|].
     cbn [e_headers]. apply Rel_aset; auto. apply in_Auth. exact Hn.
   - (* Composite *)
     cbn [auth_step spec_plugin].
@@ -206,48 +213,41 @@ Proof.
             end
         end).
     assert (Hgo : forall ps, Forall (step_ok P) ps -> forall a e,
-              forallb no_nonheader_key ps = true -> incl (flat_map plugin_names ps) P -> SRel P a e ->
+              incl (flat_map plugin_names ps) P -> SRel P a e ->
               match goA ps a, goS ps e with
               | (l1, Ok a'), (l2, Ok e') =>
-                  l1 = l2 /\ SRel P a' e' /\ e_params e' = e_params e /\ e_cookies e' = e_cookies e
-                  /\ forallb no_nonheader_key l1 = true /\ flat_map plugin_names l1 = flat_map plugin_names ps
+                  l1 = l2 /\ SRel P a' e' /\ flat_map plugin_names l1 = flat_map plugin_names ps
               | (l1, Err), (l2, Err) =>
-                  l1 = l2 /\ forallb no_nonheader_key l1 = true
-                  /\ flat_map plugin_names l1 = flat_map plugin_names ps
+                  l1 = l2 /\ flat_map plugin_names l1 = flat_map plugin_names ps
               | _, _ => False
               end).
-    { clear. induction ps as [|q qs IH]; intros HF a e Hg Hn HR.
-      - simpl. repeat split; auto.
+    { clear. induction ps as [|q qs IH]; intros HF a e Hn HR.
+      - simpl. split; [reflexivity|]. split; [exact HR | reflexivity].
       - inversion HF as [|? ? Hq Hqs]; subst.
-        cbn [forallb] in Hg. apply andb_true_iff in Hg. destruct Hg as [Hg1 Hg2].
         cbn [flat_map] in Hn.
         assert (Hn1 : incl (plugin_names q) P) by (intros x Hx; apply Hn; apply in_or_app; auto).
         assert (Hn2 : incl (flat_map plugin_names qs) P) by (intros x Hx; apply Hn; apply in_or_app; auto).
-        specialize (Hq a e Hg1 Hn1 HR).
+        specialize (Hq a e Hn1 HR).
         cbn [goA goS]. fold goA. fold goS.
         destruct (auth_step q a) as [q1 [a1|]]; destruct (spec_plugin q e) as [q2 [e1|]]; try contradiction.
-        + destruct Hq as (-> & HR1 & Hp & Hc & Hg' & Hnm).
-          specialize (IH Hqs a1 e1 Hg2 Hn2 HR1).
+        + destruct Hq as (-> & HR1 & Hnm).
+          specialize (IH Hqs a1 e1 Hn2 HR1).
           destruct (goA qs a1) as [l1 [a2|]]; destruct (goS qs e1) as [l2 [e2|]]; try contradiction.
-          * destruct IH as (-> & HR2 & Hp2 & Hc2 & Hg'' & Hnm2).
-            repeat split; auto; try congruence.
-            -- cbn [forallb]. rewrite Hg', Hg''. reflexivity.
-            -- cbn [flat_map]. rewrite Hnm, Hnm2. reflexivity.
-          * destruct IH as (-> & Hg'' & Hnm2). repeat split; auto.
-            -- cbn [forallb]. rewrite Hg', Hg''. reflexivity.
-            -- cbn [flat_map]. rewrite Hnm, Hnm2. reflexivity.
-        + destruct Hq as (-> & Hg' & Hnm). repeat split; auto.
-          * cbn [forallb]. rewrite Hg', Hg2. reflexivity.
-          * cbn [flat_map]. rewrite Hnm. reflexivity. }
-    cbn [no_nonheader_key] in Hg. cbn [plugin_names] in Hn.
-    specialize (Hgo ps H a e Hg Hn (ex_intro _ h0 (conj Hh HR))).
+          * destruct IH as (-> & HR2 & Hnm2).
+            split; [reflexivity|]. split; [assumption|]. cbn [flat_map]. rewrite Hnm, Hnm2. reflexivity.
+          * destruct IH as (-> & Hnm2). split; [reflexivity|].
+            cbn [flat_map]. rewrite Hnm, Hnm2. reflexivity.
+        + destruct Hq as (-> & Hnm). split; [reflexivity|].
+          cbn [flat_map]. rewrite Hnm. reflexivity. }
+    cbn [plugin_names] in Hn.
+    specialize (Hgo ps H a e Hn (conj (ex_intro _ h0 (conj Hh HR)) (conj Hpa Hco))).
     destruct (goA ps a) as [l1 [a2|]]; destruct (goS ps e) as [l2 [e2|]]; try contradiction.
-    + destruct Hgo as (-> & HR2 & Hp2 & Hc2 & Hg'' & Hnm2). repeat split; auto.
-    + destruct Hgo as (-> & Hg'' & Hnm2). repeat split; auto.
+    + destruct Hgo as (-> & HR2 & Hnm2). repeat split; auto; apply HR2.
+    + destruct Hgo as (-> & Hnm2). repeat split; auto.
 Qed.
 
 (* ---------- one request ---------- *)
-Definition guard (t : transport) (kw : kwargs) : bool := guard_F17a t && guard_F17b t kw.
+Definition guard (t : transport) (kw : kwargs) : bool := guard_F17b t kw.
 
 Definition agrees (t : transport) (kw : kwargs) : Prop :=
   match request t kw, spec_request t kw with
@@ -259,7 +259,7 @@ Definition agrees (t : transport) (kw : kwargs) : Prop :=
 Lemma request_agrees : forall t kw, guard t kw = true ->
   agrees t kw /\ (forall kw', guard (fst (request t kw)) kw' = guard t kw').
 Proof.
-  intros t kw Hg. unfold guard in Hg. apply andb_true_iff in Hg. destruct Hg as [Ha Hb].
+  intros t kw Hb. unfold guard in *.
   unfold guard_F17b in Hb. set (P := all_names t kw) in *.
   assert (HinD : incl (map fst (truthy_dict (t_defaults t))) P).
   { intros x Hx. unfold P, all_names. apply in_or_app. auto. }
@@ -274,25 +274,25 @@ Proof.
     - simpl. apply Rel_aupdate; auto. apply Rel_nil. }
   unfold agrees, request, spec_request, prepare_headers.
   destruct (t_auth t) as [a|] eqn:EA.
-  - unfold guard_F17a in Ha. rewrite EA in Ha.
-    assert (HinA : incl (plugin_names a) P).
+  - assert (HinA : incl (plugin_names a) P).
     { intros x Hx. unfold P, all_names. rewrite EA. apply in_or_app. right. apply in_or_app. auto. }
     pose proof (step_ok_all P Hb a) as Hs. unfold step_ok in Hs.
     match goal with |- context [auth_step a ?s] => set (sc := s) end.
     match goal with |- context [spec_plugin a ?s] => set (ex := s) end.
-    specialize (Hs sc ex Ha HinA).
-    assert (HS : SRel P sc ex). { eexists. split; [reflexivity|]. exact HR1. }
+    specialize (Hs sc ex HinA).
+    assert (HS : SRel P sc ex).
+    { split; [eexists; split; [reflexivity | exact HR1] | split; reflexivity]. }
     specialize (Hs HS).
     destruct (auth_step a sc) as [a1 [sc1|]]; destruct (spec_plugin a ex) as [a2 [e1|]]; try contradiction.
-    + destruct Hs as (-> & (h1 & Hh1 & HR2) & Hp & Hc & Hg' & Hnm). split.
+    + destruct Hs as (-> & ((h1 & Hh1 & HR2) & Hp & Hc) & Hnm). split.
       * split; [reflexivity|]. rewrite Hh1. unfold meets. cbn [w_headers w_params w_cookies w_body].
         repeat split; auto.
         intro n. eapply Rel_values. exact HR2.
-      * intro kw'. unfold guard, guard_F17a, guard_F17b, all_names. cbn [fst t_auth t_defaults t_bearer].
-        rewrite EA, Hnm. destruct (no_nonheader_key a2), (no_nonheader_key a); try discriminate; reflexivity.
-    + destruct Hs as (-> & Hg' & Hnm). split; [reflexivity|].
-      intro kw'. unfold guard, guard_F17a, guard_F17b, all_names. cbn [fst t_auth t_defaults t_bearer].
-      rewrite EA, Hnm. rewrite Hg', Ha. reflexivity.
+      * intro kw'. unfold guard_F17b, all_names. cbn [fst t_auth t_defaults t_bearer].
+        rewrite EA, Hnm. reflexivity.
+    + destruct Hs as (-> & Hnm). split; [reflexivity|].
+      intro kw'. unfold guard_F17b, all_names. cbn [fst t_auth t_defaults t_bearer].
+      rewrite EA, Hnm. reflexivity.
   - destruct (t_bearer t) as [tok|] eqn:EB.
     + split; [|intro; reflexivity]. split; [reflexivity|].
       unfold meets. cbn [w_headers w_params w_cookies w_body e_headers e_params e_cookies].
@@ -345,25 +345,22 @@ Qed.
 Definition s_k : str := [107]. Definition s_v : str := [118].
 Definition s_XD : str := [88;45;68]. Definition s_xd : str := [120;45;100].
 
-(* F17a: ApiKeyAuth(location="query") — the key never reaches the query string *)
-Definition t_F17a : transport :=
-  {| t_defaults := None; t_auth := Some (ApiKey s_v s_query s_k); t_bearer := None |}.
 Definition kw0 : kwargs := {| k_headers := None; k_params := None; k_cookies := None; k_body := [] |}.
 
-Lemma refuted_F17a : guard_F17a t_F17a = false /\ guard_F17b t_F17a kw0 = true /\ ~ agrees t_F17a kw0.
-Proof.
-  split; [reflexivity|]. split; [reflexivity|].
-  unfold agrees. cbn. intros [_ (_ & H & _)]. discriminate.
-Qed.
+(* formerly finding F17a (fixed in /repo): an API key configured for the query string reaches it *)
+Example apikey_query_reaches_wire :
+  snd (request {| t_defaults := None; t_auth := Some (ApiKey s_v s_query s_k); t_bearer := None |} kw0)
+  = Ok {| w_headers := []; w_params := Some [(s_k, s_v)]; w_cookies := None; w_body := [] |}.
+Proof. reflexivity. Qed.
 
 (* F17b: defaults {"X-D": v} and request {"x-d": k}: both fields are sent *)
 Definition t_F17b : transport :=
   {| t_defaults := Some [(s_XD, s_v)]; t_auth := None; t_bearer := None |}.
 Definition kw_F17b : kwargs := {| k_headers := Some [(s_xd, s_k)]; k_params := None; k_cookies := None; k_body := [] |}.
 
-Lemma refuted_F17b : guard_F17a t_F17b = true /\ guard_F17b t_F17b kw_F17b = false /\ ~ agrees t_F17b kw_F17b.
+Lemma refuted_F17b : guard_F17b t_F17b kw_F17b = false /\ ~ agrees t_F17b kw_F17b.
 Proof.
-  split; [reflexivity|]. split; [reflexivity|].
+  split; [reflexivity|].
   unfold agrees. cbn. intros [_ (H & _)]. specialize (H s_xd). vm_compute in H. discriminate.
 Qed.
 
@@ -371,6 +368,7 @@ Qed.
 Example guard_nonvacuous :
   guard {| t_defaults := Some [(s_XD, s_v)];
            t_auth := Some (Composite [Bearer s_k; HeadersP [(s_XD, s_k)]; ApiKey s_v s_header s_k;
+                                      ApiKey s_v s_query s_k; ApiKey s_v s_cookie s_k;
                                       OAuth2 s_k (Some [(s_k, s_v)])]);
            t_bearer := Some s_v |}
         {| k_headers := Some [(s_XD, s_k)]; k_params := Some [(s_k, s_v)]; k_cookies := None; k_body := s_v |} = true.
